@@ -146,7 +146,7 @@ def step (line : String) : String :=
   | ["tr", src, tgt, sig, regs, placed] =>
     match pNodes src, pNodes tgt, pPairs sig, pRegs regs, parseNats placed with
     | some s, some t, some σ, some rs, some pl =>
-      match transfer XrefTables.destroyGuardsNone XrefTables.discardsContentOfKeptBlock ⟨s, t⟩ σ rs pl with
+      match transferCurrent ⟨s, t⟩ σ rs pl with
       | .error e => "err " ++ sErr e
       | .ok (d, σ') =>
         let new := d.tgt.filter fun n => σ.range.contains n.handle
